@@ -13,6 +13,7 @@
 package trie
 
 //@ pred agree(a K, b K, d int) := forall j int :: { a[j] } { b[j] } 0 <= j && j < d ==> a[j] == b[j]
+//@ pred isprefix(k K, q K) := len(k) <= len(q) && agree(k, q, len(k))
 //@ pred nsubset(a set[*node], b set[*node]) := forall x *node :: { x in a } x in a ==> x in b
 //@ pred ssubset(a set[K], b set[K]) := forall k K :: { k in a } k in a ==> k in b
 //@ pred tl1(m *node, repr map[*node]set[*node], S map[*node]set[K], term map[*node]K, wit map[*node]K, dep map[*node]int, vm map[K]V) := dep[m] >= 0 && wit[m] in S[m]
@@ -31,6 +32,7 @@ package trie
 //@ func (*trie.node).get
 //@   property C09 C01
 //@   opt nil-receiver
+//@   opt path-hyps
 //@   ghost-param repr map[*node]set[*node]
 //@   ghost-param S map[*node]set[K]
 //@   ghost-param term map[*node]K
@@ -50,6 +52,26 @@ package trie
 //@   assert n != nil && len(key) > 0 && key[d] == n.c && d == len(key) - 1 ==> ((result0 != nil && result0.isValid) <==> key in S[n])
 //@   ensures n != nil && len(key) > 0 ==> ((result0 != nil && result0.isValid) <==> key in S[n])
 //@   ensures result0 != nil ==> result0 in repr[n] && (result0.isValid ==> term[result0] == key && result0.val == vm[key])
+//@   assert n != nil && len(key) > 0 && key[d] < n.c ==> (result0 != nil ==> dep[result0] == len(key) - 1 && result0.c == key[len(key) - 1] && agree(key, wit[result0], len(key) - 1))
+//@   assert n != nil && len(key) > 0 && key[d] > n.c ==> (result0 != nil ==> dep[result0] == len(key) - 1 && result0.c == key[len(key) - 1] && agree(key, wit[result0], len(key) - 1))
+//@   assert n != nil && len(key) > 0 && key[d] == n.c && d < len(key) - 1 ==> (result0 != nil ==> dep[result0] == len(key) - 1 && result0.c == key[len(key) - 1] && agree(key, wit[result0], len(key) - 1))
+//@   assert n != nil && len(key) > 0 && key[d] == n.c && d == len(key) - 1 ==> (result0 != nil ==> dep[result0] == len(key) - 1 && result0.c == key[len(key) - 1] && agree(key, wit[result0], len(key) - 1))
+//@   ensures n != nil && len(key) > 0 ==> (result0 != nil ==> dep[result0] == len(key) - 1 && result0.c == key[len(key) - 1] && agree(key, wit[result0], len(key) - 1))
+//@   assert n != nil && len(key) > 0 && key[d] < n.c ==> (result0 != nil ==> (forall k K :: { k in S[n] } k in S[n] && isprefix(key, k) ==> ((result0.isValid && k == term[result0]) || (result0.mid != nil && k in S[result0.mid]))))
+//@   assert n != nil && len(key) > 0 && key[d] > n.c ==> (result0 != nil ==> (forall k K :: { k in S[n] } k in S[n] && isprefix(key, k) ==> ((result0.isValid && k == term[result0]) || (result0.mid != nil && k in S[result0.mid]))))
+//@   assert n != nil && len(key) > 0 && key[d] == n.c && d < len(key) - 1 ==> (result0 != nil ==> (forall k K :: { k in S[n] } k in S[n] && isprefix(key, k) ==> ((result0.isValid && k == term[result0]) || (result0.mid != nil && k in S[result0.mid]))))
+//@   assert n != nil && len(key) > 0 && key[d] == n.c && d == len(key) - 1 ==> (result0 != nil ==> (forall k K :: { k in S[n] } k in S[n] && isprefix(key, k) ==> ((result0.isValid && k == term[result0]) || (result0.mid != nil && k in S[result0.mid]))))
+//@   ensures n != nil && len(key) > 0 ==> (result0 != nil ==> (forall k K :: { k in S[n] } k in S[n] && isprefix(key, k) ==> ((result0.isValid && k == term[result0]) || (result0.mid != nil && k in S[result0.mid]))))
+//@   assert n != nil && len(key) > 0 && key[d] < n.c ==> (result0 != nil ==> (forall k K :: { k in S[result0.mid] } result0.mid != nil && k in S[result0.mid] ==> k in S[n] && isprefix(key, k)))
+//@   assert n != nil && len(key) > 0 && key[d] > n.c ==> (result0 != nil ==> (forall k K :: { k in S[result0.mid] } result0.mid != nil && k in S[result0.mid] ==> k in S[n] && isprefix(key, k)))
+//@   assert n != nil && len(key) > 0 && key[d] == n.c && d < len(key) - 1 ==> (result0 != nil ==> (forall k K :: { k in S[result0.mid] } result0.mid != nil && k in S[result0.mid] ==> k in S[n] && isprefix(key, k)))
+//@   assert n != nil && len(key) > 0 && key[d] == n.c && d == len(key) - 1 ==> (result0 != nil ==> (forall k K :: { k in S[result0.mid] } result0.mid != nil && k in S[result0.mid] ==> k in S[n] && isprefix(key, k)))
+//@   ensures n != nil && len(key) > 0 ==> (result0 != nil ==> (forall k K :: { k in S[result0.mid] } result0.mid != nil && k in S[result0.mid] ==> k in S[n] && isprefix(key, k)))
+//@   assert n != nil && len(key) > 0 && key[d] < n.c ==> (result0 == nil ==> (forall k K :: { k in S[n] } k in S[n] ==> !isprefix(key, k)))
+//@   assert n != nil && len(key) > 0 && key[d] > n.c ==> (result0 == nil ==> (forall k K :: { k in S[n] } k in S[n] ==> !isprefix(key, k)))
+//@   assert n != nil && len(key) > 0 && key[d] == n.c && d < len(key) - 1 ==> (result0 == nil ==> (forall k K :: { k in S[n] } k in S[n] ==> !isprefix(key, k)))
+//@   assert n != nil && len(key) > 0 && key[d] == n.c && d == len(key) - 1 ==> (result0 == nil ==> (forall k K :: { k in S[n] } k in S[n] ==> !isprefix(key, k)))
+//@   ensures n != nil && len(key) > 0 ==> (result0 == nil ==> (forall k K :: { k in S[n] } k in S[n] ==> !isprefix(key, k)))
 //@   call get#1 ghost repr = repr; S = S; term = term; wit = wit; dep = dep; vm = vm
 //@   call get#2 ghost repr = repr; S = S; term = term; wit = wit; dep = dep; vm = vm
 //@   call get#3 ghost repr = repr; S = S; term = term; wit = wit; dep = dep; vm = vm
@@ -711,7 +733,6 @@ package trie
 // ---------------------------------------------------------------- the public methods
 
 //@ pred trieInv(t *Trie, repr map[*node]set[*node], S map[*node]set[K], term map[*node]K, wit map[*node]K, dep map[*node]int, vm map[K]V) := ErrorNotFound != nil && t.n >= 0 && (t.root != nil ==> tvalid(t.root, repr, S, term, wit, dep, vm) && dep[t.root] == 0)
-//@ pred isprefix(k K, q K) := len(k) <= len(q) && agree(k, q, len(k))
 
 //@ func trie.newNode
 //@   inline
@@ -806,19 +827,74 @@ package trie
 //@   invariant length > 0 ==> t.root != nil && lk in S[t.root] && len(lk) == length && agree(lk, query, length)
 //@   invariant forall k K :: { k in S[t.root] } t.root != nil && k in S[t.root] && isprefix(k, query) && len(k) > length ==> x != nil && k in S[x]
 
-// The queue handed to New is a dependency of the caller's choosing. Assumed of it (not verified here): its methods
-// do not touch the trie. (queue.Queue and queue.LQueue, verified under C05, only touch their own fields.)
+// The queue handed to New is a dependency of the caller's choosing. It is described by two ghost fields - the number
+// of queued strings and the strings by position - and ASSUMED (not verified here) to behave like a FIFO container
+// that does not touch the trie: Clear empties it, Enqueue appends. (queue.Queue and queue.LQueue are verified to do
+// exactly this under C05.)
+//@ gfield qn(q ref) int
+//@ gfield qe(q ref) map[int]string
 //@ func (trie.Queuer).Clear
-//@   ensures true
+//@   modifies qn(self)
+//@   ensures qn(self) == 0
 //@ func (trie.Queuer).Enqueue
-//@   ensures true
+//@   modifies qn(self), qe(self)
+//@   ensures qn(self) == old(qn(self)) + 1 && qe(self)[old(qn(self))] == arg0 && forall i int :: { qe(self)[i] } 0 <= i && i < old(qn(self)) ==> qe(self)[i] == old(qe(self)[i])
+
+//@ pred qkept(q ref) := old(qn(q)) <= qn(q) && forall i int :: { qe(q)[i] } 0 <= i && i < old(qn(q)) ==> qe(q)[i] == old(qe(q)[i])
 
 //@ func (*trie.node).collect
 //@   property C09 C01
 //@   opt nil-receiver
+//@   opt ghost-out qpos
 //@   lock t.mu : R
-//@   requires t != nil && ErrorNotFound != nil
-//@   ensures true
+//@   ghost-param repr map[*node]set[*node]
+//@   ghost-param S map[*node]set[K]
+//@   ghost-param term map[*node]K
+//@   ghost-param wit map[*node]K
+//@   ghost-param dep map[*node]int
+//@   ghost-param vm map[K]V
+//@   ghost qpos map[K]int
+//@   ghost qL map[K]int
+//@   ghost qM map[K]int
+//@   ghost qR map[K]int
+//@   ghost b1 int
+//@   ghost b3 int
+//@   requires t != nil && ErrorNotFound != nil && qn(t.q) >= 0
+//@   requires n != nil ==> tvalid(n, repr, S, term, wit, dep, vm) && len(prefix) == dep[n] && agree(prefix, wit[n], dep[n])
+//@   modifies qn(t.q), qe(t.q)
+//@   ghost-at collect#1: qL = qpos
+//@   ghost-at collect#1: b1 = qn(t.q)
+//@   ghost-at collect#2: qM = qpos
+//@   ghost-at collect#2: b3 = qn(t.q)
+//@   ghost-at collect#3: qR = qpos
+//@   exit-ghost qpos = lambda k K :: (n.left != nil && k in S[n.left] ? qL[k] : (n.isValid && k == term[n] ? b1 : (n.mid != nil && k in S[n.mid] ? qM[k] : qR[k])))
+//@   assert n != nil ==> old(qn(t.q)) <= b1 && b1 + (n.isValid ? 1 : 0) <= b3 && b3 <= qn(t.q)
+//@   assert n != nil && n.left == nil ==> b1 == old(qn(t.q))
+//@   assert n != nil && n.mid == nil ==> b3 == b1 + (n.isValid ? 1 : 0)
+//@   assert n != nil && n.right == nil ==> qn(t.q) == b3
+//@   assert n != nil ==> forall i int :: { qe(t.q)[i] } old(qn(t.q)) <= i && i < b1 ==> n.left != nil && qe(t.q)[i] in S[n.left]
+//@   assert n != nil && n.isValid ==> streq(qe(t.q)[b1], term[n])
+//@   assert n != nil ==> forall i int :: { qe(t.q)[i] } b1 + (n.isValid ? 1 : 0) <= i && i < b3 ==> n.mid != nil && qe(t.q)[i] in S[n.mid]
+//@   assert n != nil ==> forall i int :: { qe(t.q)[i] } b3 <= i && i < qn(t.q) ==> n.right != nil && qe(t.q)[i] in S[n.right]
+//@   assert n != nil && n.left != nil ==> forall k K :: { k in S[n.left] } k in S[n.left] ==> old(qn(t.q)) <= qL[k] && qL[k] < b1 && qe(t.q)[qL[k]] == k
+//@   assert n != nil && n.mid != nil ==> forall k K :: { k in S[n.mid] } k in S[n.mid] ==> b1 + (n.isValid ? 1 : 0) <= qM[k] && qM[k] < b3 && qe(t.q)[qM[k]] == k
+//@   assert n != nil && n.right != nil ==> forall k K :: { k in S[n.right] } k in S[n.right] ==> b3 <= qR[k] && qR[k] < qn(t.q) && qe(t.q)[qR[k]] == k
+//@   assert n != nil ==> forall k1 K, k2 K :: { k1 in S[n], k2 in S[n] } k1 in S[n] && k2 in S[n] && k1[dep[n]] < k2[dep[n]] ==> k1 < k2
+//@   assert n != nil && n.isValid ==> forall k2 K :: { k2 in S[n.mid] } n.mid != nil && k2 in S[n.mid] ==> term[n] < k2
+//@   assert n != nil ==> forall i int, j int :: { qe(t.q)[i], qe(t.q)[j] } old(qn(t.q)) <= i && i < j && j < b1 ==> qe(t.q)[i] < qe(t.q)[j]
+//@   assert n != nil ==> forall i int, j int :: { qe(t.q)[i], qe(t.q)[j] } b1 + (n.isValid ? 1 : 0) <= i && i < j && j < b3 ==> qe(t.q)[i] < qe(t.q)[j]
+//@   assert n != nil ==> forall i int, j int :: { qe(t.q)[i], qe(t.q)[j] } b3 <= i && i < j && j < qn(t.q) ==> qe(t.q)[i] < qe(t.q)[j]
+//@   assert n != nil ==> forall i int :: { qe(t.q)[i] } old(qn(t.q)) <= i && i < qn(t.q) ==> qe(t.q)[i] in S[n] && (i < b1 ==> qe(t.q)[i][dep[n]] < n.c) && (i >= b1 ==> qe(t.q)[i][dep[n]] >= n.c) && (i >= b3 ==> qe(t.q)[i][dep[n]] > n.c) && (i < b3 ==> qe(t.q)[i][dep[n]] <= n.c)
+//@   ensures n == nil ==> qn(t.q) == old(qn(t.q))
+//@   ensures qkept(t.q)
+//@   ensures n != nil ==> forall i int :: { qe(t.q)[i] } old(qn(t.q)) <= i && i < qn(t.q) ==> qe(t.q)[i] in S[n]
+//@   ensures n != nil ==> forall k K :: { k in S[n] } k in S[n] ==> old(qn(t.q)) <= qpos[k] && qpos[k] < qn(t.q) && qe(t.q)[qpos[k]] == k
+//@   ensures forall i int, j int :: { qe(t.q)[i], qe(t.q)[j] } old(qn(t.q)) <= i && i < j && j < qn(t.q) ==> qe(t.q)[i] < qe(t.q)[j]
+//@   call collect#1 ghost repr = repr; S = S; term = term; wit = wit; dep = dep; vm = vm
+//@   call collect#2 ghost repr = repr; S = S; term = term; wit = wit; dep = dep; vm = vm
+//@   call collect#3 ghost repr = repr; S = S; term = term; wit = wit; dep = dep; vm = vm
+
+//@ pred qsorted(q ref) := forall i int, j int :: { qe(q)[i], qe(q)[j] } 0 <= i && i < j && j < qn(q) ==> qe(q)[i] < qe(q)[j]
 
 //@ func (*trie.Trie).Keys
 //@   property C09 C01
@@ -829,8 +905,14 @@ package trie
 //@   ghost-param wit map[*node]K
 //@   ghost-param dep map[*node]int
 //@   ghost-param vm map[K]V
-//@   requires ErrorNotFound != nil
-//@   ensures true
+//@   ghost qpos map[K]int
+//@   requires trieInv(t, repr, S, term, wit, dep, vm)
+//@   modifies qn(t.q), qe(t.q)
+//@   ensures result0 == t.q && result1 == nil && qsorted(t.q)
+//@   ensures t.root == nil ==> qn(t.q) == 0
+//@   ensures t.root != nil ==> forall i int :: { qe(t.q)[i] } 0 <= i && i < qn(t.q) ==> qe(t.q)[i] in S[t.root]
+//@   ensures t.root != nil ==> forall k K :: { k in S[t.root] } k in S[t.root] ==> 0 <= qpos[k] && qpos[k] < qn(t.q) && qe(t.q)[qpos[k]] == k
+//@   call collect#1 ghost repr = repr; S = S; term = term; wit = wit; dep = dep; vm = vm
 
 //@ func (*trie.Trie).StartsWith
 //@   property C09 C01
@@ -841,10 +923,18 @@ package trie
 //@   ghost-param wit map[*node]K
 //@   ghost-param dep map[*node]int
 //@   ghost-param vm map[K]V
+//@   ghost qpos map[K]int
 //@   requires trieInv(t, repr, S, term, wit, dep, vm)
-//@   ensures len(prefix) == 0 ==> result1 != nil
+//@   modifies qn(t.q), qe(t.q)
+//@   ghost-at collect#1: qpos = lambda k K :: (x.isValid && k == prefix ? 0 : qpos[k])
+//@   ensures result0 == t.q && qsorted(t.q)
+//@   ensures len(prefix) == 0 ==> result1 != nil && qn(t.q) == 0
 //@   ensures len(prefix) > 0 ==> result1 == nil
+//@   ensures len(prefix) > 0 && t.root == nil ==> qn(t.q) == 0
+//@   ensures len(prefix) > 0 && t.root != nil ==> forall i int :: { qe(t.q)[i] } 0 <= i && i < qn(t.q) ==> qe(t.q)[i] in S[t.root] && isprefix(prefix, qe(t.q)[i])
+//@   ensures len(prefix) > 0 && t.root != nil ==> forall k K :: { k in S[t.root] } k in S[t.root] && isprefix(prefix, k) ==> 0 <= qpos[k] && qpos[k] < qn(t.q) && qe(t.q)[qpos[k]] == k
 //@   call get#1 ghost repr = repr; S = S; term = term; wit = wit; dep = dep; vm = vm
+//@   call collect#1 ghost repr = repr; S = S; term = term; wit = wit; dep = dep; vm = vm
 
 //@ guards trie.Trie.mu : root, n, all trie.node, all trie.Item
 //@ lockinv trie.Trie : trieInv(self, repr, S, term, wit, dep, vm)
